@@ -656,7 +656,9 @@ func TestC11PoolConstruction(t *testing.T) {
 	st := stats.G()
 	rapid.Check(t, func(rt *rapid.T) {
 		maxConns := rapid.IntRange(1, 4).Draw(rt, "max-conns")
-		minConns := rapid.IntRange(0, maxConns).Draw(rt, "min-conns")
+		// (a configured minimum above the configured maximum too: whatever construction makes of it,
+		// the maximum is the maximum)
+		minConns := rapid.IntRange(0, maxConns+2).Draw(rt, "min-conns")
 		viaDial := rapid.Bool().Draw(rt, "chpool.Dial")
 		okDials := rapid.IntRange(0, 5).Draw(rt, "dials-that-succeed") // 5 = all
 		slowClose := rapid.SampledFrom([]time.Duration{0, 0, 3 * time.Millisecond}).Draw(rt, "close-takes")
@@ -689,7 +691,23 @@ func TestC11PoolConstruction(t *testing.T) {
 				}
 				return n, len(f.conns)
 			}
-			if okDials < need {
+			if minConns > maxConns {
+				n, dialed := open()
+				if err != nil {
+					if p != nil || n != 0 {
+						rt.Fatalf("MinConns %d above MaxConns %d: construction failed (%v) but %d of the %d connections it opened are still open", minConns, maxConns, err, n, dialed)
+					}
+				} else {
+					if n > maxConns || int(p.Stat().TotalResources()) > maxConns || int(p.Stat().MaxResources()) > maxConns {
+						rt.Fatalf("MinConns %d above MaxConns %d: the pool came up with %d open connections (Stat total %d, max %d): more than the configured maximum", minConns, maxConns, n, p.Stat().TotalResources(), p.Stat().MaxResources())
+					}
+					p.Close()
+					synctest.Wait()
+					if n, dialed := open(); n != 0 {
+						rt.Fatalf("after Close %d of %d connections are still open", n, dialed)
+					}
+				}
+			} else if okDials < need {
 				if err == nil || p != nil {
 					rt.Fatalf("pool needing %d connections came up (err=%v) although only %d dials succeed", need, err, okDials)
 				}
